@@ -35,6 +35,14 @@ func newCountCtx(cancelAt int) *countCtx {
 	close(c.closed)
 	return c
 }
+
+// newDeadlineCtx also cancels after a wall-clock delay, so that a script blocked on a channel
+// (which polls nothing) is released
+func newDeadlineCtx(cancelAt int, d time.Duration) *countCtx {
+	c := newCountCtx(cancelAt)
+	time.AfterFunc(d, func() { close(c.open) })
+	return c
+}
 func (c *countCtx) Deadline() (time.Time, bool) { return time.Time{}, false }
 func (c *countCtx) Done() <-chan struct{} {
 	n := c.calls
